@@ -15,6 +15,10 @@ EXCLUDE = (r"fmt$|Visitor|serde|Deserialize|Serialize|::hash$|ops::Index(Mut)?<u
            r"group::ff::Field>::(sqrt|sqrt_ratio|random)$|::random$|Group>::random$|PrimeFieldBits")
 # reviewed residuals: obligations the interval domain cannot discharge, each with its reason (keys have no line numbers)
 RESIDUALS = [
+    (r"precomputed_straus::.*optional_mixed_multiscalar_mul$", r"^call:panic$", r"sp >= static_nafs\.len\(\)|^adt\{\}, &\(\(tuple\{",
+     "assert!(sp >= static_nafs.len()) / assert_eq!(dp, dynamic_nafs.len()): the documented precondition of the precomputed multiscalar API (traits.rs: the iterators must have consistent lengths); the abstract collections have independent lengths"),
+    (r"precomputed_straus::.*optional_mixed_multiscalar_mul$", r"^call:index$", r"",
+     "dynamic_nafs[i], dynamic_lookup_tables[i], static_nafs[i], static_lookup_tables[i] with i below the vector's own length or a length asserted equal / not larger two statements earlier: relational, outside the interval domain"),
     (r"edwards::EdwardsPoint as .*traits::(Vartime)?MultiscalarMul>::(optional_)?multiscalar_mul$", r"^call:panic$", r"^adt\{\}, &\(\(tuple\{",
      "assert_eq! on the size hints of the two input iterators: the documented domain of (optional_)multiscalar_mul is two iterators of the same length (traits.rs: 'It is an error to call this function with two iterators of different lengths'); the abstract collections have independent lengths"),
     (r"edwards::EdwardsPoint::nonspec_map_to_curve$", r"^call:expect$", r"^to_edwards\(&elligator_encode",
